@@ -483,6 +483,7 @@ type Contract struct {
 	File       string
 	Line       int
 	PkgName    string
+	TrackLocks bool // `track locks`: sync.Mutex/RWMutex operations update ghost(lockst, m): 0 free, 1 read-locked, 2 locked
 	NoSafety   bool // `unchecked safety`: nil/bounds/type-assertion/... obligations are assumed, not proved (listed)
 	NoPre      bool // `unchecked pre`: preconditions of callees are assumed, not proved (listed)
 	Notes      []string
@@ -769,6 +770,11 @@ func (cs *ContractSet) LoadContractFile(path, pkgName string, trusted bool) erro
 						return fail(fmt.Errorf("unknown check %q", w))
 					}
 				}
+			case "track":
+				if strings.TrimSpace(rest) != "locks" {
+					return fail(fmt.Errorf("track locks"))
+				}
+				cur.TrackLocks = true
 			case "unchecked":
 				// thin contracts on very large functions: only the anchors and postconditions are proved
 				for _, w := range strings.Fields(rest) {
